@@ -93,7 +93,9 @@ pub proof fn lemma_prefix_boundary(src: Seq<u8>, off: int, p: &str, t: &str)
 /// lexer.verus.rs; with custom delimiters it is the Aho-Corasick automaton of a dependency)
 pub uninterp spec fn spec_find(a: &str, offset: usize, cfg: &SyntaxConfig) -> Option<(usize, StartMarker, usize, Whitespace)>;
 
-// ASSUMED contract: the reported tag start lies inside the rest of the text, on a character boundary
+// contract used here: the reported tag start lies inside the rest of the text, on a character boundary. For the build without
+// custom_syntax this is PROVED on the real wrapper in find_start_marker.verus.rs (find_start_marker_from_offset, which also
+// shows that the answer is the leftmost tag start at or after the offset); with custom delimiters it stays assumed.
 //@ extract file=minijinja/src/compiler/lexer.rs item=fn:find_start_marker ret=r external_body nobody
 //@ |    requires offset <= a.spec_bytes().len(), is_char_boundary(a.spec_bytes(), offset as int),
 //@ |    ensures r == spec_find(a, offset, syntax_config),
